@@ -20,6 +20,7 @@ verus! {
 //@include prelude/sync.rs
 //@include prelude/iter.rs
 //@include prelude/str.rs
+//@include prelude/option.rs
 //@include prelude/bytes.rs
 
 #[verifier::external_type_specification]
@@ -317,7 +318,6 @@ pub open spec fn is_crlf_at(s: Seq<u8>, k: int) -> bool { 0 <= k && k + 1 < s.le
 pub open spec fn ascii_bytes(s: Seq<u8>) -> bool { forall|i: int| 0 <= i < s.len() ==> #[trigger] s[i] < 128 }
 
 //@impl src/client.rs "ClientConnection"
-#[verifier::exec_allows_no_decreases_clause]
 //@fn read_next_line ret res props C13,C15,C10,C02
 //@spec
     ensures
@@ -362,7 +362,6 @@ pub open spec fn ascii_bytes(s: Seq<u8>) -> bool { forall|i: int| 0 <= i < s.len
             }
 //@endfn
 
-#[verifier::exec_allows_no_decreases_clause]
 //@fn read ret res props C01,C10,C15,C16
 //@spec
     requires old(self).prior_handed_off(), old(self).peer_known(),
@@ -381,12 +380,11 @@ pub open spec fn ascii_bytes(s: Seq<u8>) -> bool { forall|i: int| 0 <= i < s.len
                     invariant
                         self.prior_handed_off(), self.peer_known(),
                         self.closing() == old(self).closing(), self.sink_last() == old(self).sink_last(),
-//@closure 1 |e: RequestCreationError| -> (re: ReadError) ensures true
+//@closure ~RequestCreationError::CreationIoError~ |e: RequestCreationError| -> (re: ReadError) ensures true
 //@endfn
 //@endimpl
 
 //@impl src/client.rs "Iterator for ClientConnection" inherent
-#[verifier::exec_allows_no_decreases_clause]
 //@fn next ret res props C10,C12,C01,C15
 //@spec
     requires old(self).prior_handed_off(), old(self).peer_known(),    // A-APP (everything issued earlier went to the application), A-PEER
@@ -443,9 +441,9 @@ pub open spec fn ascii_bytes(s: Seq<u8>) -> bool { forall|i: int| 0 <= i < s.len
                 // C01: the delivered request owns the writer issued last, and it is unanswered
                 assert(self.sink_last() == Some(rq.writer_chan()) && !rq.answered());
             }
-//@closure 1 |h: &&Header| -> (b: bool) ensures b == hdr_is(**h, "Connection"@)
-//@closure 2 |h: &Header| -> (o: &str) ensures o@ == h.value@
-//@closure 3 |h: &str| -> (o: String) ensures o@ == lower(h@)
+//@closure ~equiv("Connection")~ |h: &&Header| -> (b: bool) ensures b == hdr_is(**h, "Connection"@)
+//@closure ~h.value.as_str()~ |h: &Header| -> (o: &str) ensures o@ == h.value@
+//@closure ~to_ascii_lowercase()~ |h: &str| -> (o: String) ensures o@ == lower(h@)
 //@endfn
 //@endimpl
 
